@@ -10,6 +10,7 @@ import ScnrVerif.Model.Json
 import ScnrVerif.Model.Dot
 import ScnrVerif.Model.Minimize
 import ScnrVerif.Model.Compile
+import ScnrVerif.Model.Agree
 import Std.Data.HashMap
 /-!
 # Line-protocol driver for the executable model (`lake exe scnr_model < case.in`)
@@ -49,6 +50,9 @@ structure DState where
   pats : Array (List (Nat × Re)) := #[]
   /-- per mode: lookahead patterns `(tid, re)` -/
   lapats : Array (List (Nat × Re)) := #[]
+  /-- the reference ASTs as sent (before desugaring), for `agree` -/
+  pasts : Array (List (Nat × Ast)) := #[]
+  lapasts : Array (List (Nat × Ast)) := #[]
   /-- configured polarity of the lookahead of (mode, token type) -/
   lapols : Array (List (Nat × Bool)) := #[]
   /-- world (C12-C14): saved compilations `id ↦ (automata, configuration, class tables)`,
@@ -663,7 +667,8 @@ def step (st : DState) (line : String) : DState × Option String :=
   | "pat" :: m :: t :: r =>
     match m.toNat?, t.toNat?, parseAst r with
     | some m, some t, some (a, []) =>
-      ({ st with pats := (ensure st.pats m []).modify m fun l => l ++ [(t, a.desugar)] }, none)
+      ({ st with pats := (ensure st.pats m []).modify m fun l => l ++ [(t, a.desugar)],
+                 pasts := (ensure st.pasts m []).modify m fun l => l ++ [(t, a)] }, none)
     | _, _, _ => (st, some "bad-op")
   | ["lapol", m, t, p] =>
     match m.toNat?, t.toNat?, p.toNat? with
@@ -673,7 +678,8 @@ def step (st : DState) (line : String) : DState × Option String :=
   | "lapat" :: m :: t :: r =>
     match m.toNat?, t.toNat?, parseAst r with
     | some m, some t, some (a, []) =>
-      ({ st with lapats := (ensure st.lapats m []).modify m fun l => l ++ [(t, a.desugar)] }, none)
+      ({ st with lapats := (ensure st.lapats m []).modify m fun l => l ++ [(t, a.desugar)],
+                 lapasts := (ensure st.lapasts m []).modify m fun l => l ++ [(t, a)] }, none)
     | _, _, _ => (st, some "bad-op")
   | ["dfa", "x", i] =>
     match i.toNat? with
@@ -743,7 +749,12 @@ def step (st : DState) (line : String) : DState × Option String :=
       let mm := minimize pre
       let n2 := if mm.trans == fin.trans && mm.ends == fin.ends && mm.prio == fin.prio then "S ok trackA: model of the whole compiler reproduces the compiled automaton exactly"
                 else "S note trackA compiler model differs from the compiled automaton"
-      (st, some ("compile done\n" ++ n1 ++ "\n" ++ n2))
+      -- decision path: the compiled automaton IS the model's (equality of the data) and every leaf
+      -- of the compiler-level patterns has the table of the corresponding reference leaf: then
+      -- `trackA_decides` gives acceptance = reference pattern languages for every word
+      let decided := decide (fin = mm) && agreePats st.tables.toList st.rtables.toList ps (st.pasts.getD m [])
+      let n3 := if decided then "\nS ok trackA decides: compiled automaton = model automaton and all leaves agree, correct for every word by compiler_model_correct" else ""
+      (st, some ("compile done\n" ++ n1 ++ "\n" ++ n2 ++ n3))
     | none => (st, some "bad-op")
   | ["compilefull", m] =>
     -- track A: the model of `CompiledDfa::try_from_patterns` (mode automaton + one automaton and
@@ -782,7 +793,12 @@ def step (st : DState) (line : String) : DState × Option String :=
         let mm := minimize pre
         let n2 := if mm.trans == fin.trans && mm.ends == fin.ends then "S ok trackA: compiled lookahead automaton reproduced exactly"
                   else "S note trackA lookahead model differs from the compiled automaton"
-        (st, some ("compile done\n" ++ n1 ++ "\n" ++ n2))
+        let decided := mm.trans == fin.trans && mm.ends == fin.ends &&
+          (match (st.lapasts.getD m []).lookup t with
+           | some r => agree st.tables.toList st.rtables.toList a r
+           | none => false)
+        let n3 := if decided then "\nS ok trackA decides: lookahead automaton = model automaton and all leaves agree, correct for every word by lookahead_model_correct" else ""
+        (st, some ("compile done\n" ++ n1 ++ "\n" ++ n2 ++ n3))
     | _, _ => (st, some "bad-op")
   | ["minimize"] =>
     -- track A: the model of Minimizer::minimize on the logged input against the logged output,
